@@ -98,6 +98,8 @@ pub struct EventSender<'a> {
     extra: AtomicUsize,
     // the mpsc event queue to collect the events
     cqueue: &'a Cqueue,
+    // true while `subscribe` is still running in the kernel, see `send`
+    wait_kernel: AtomicBool,
 }
 
 unsafe impl Send for EventSender<'_> {}
@@ -125,12 +127,22 @@ impl EventSender<'_> {
             )
         };
         co_yield_with(EventSubscriber::new(r));
+        // The poller resumes us as soon as the event is in the queue, but
+        // `subscribe` still has to wake the poller up after that. Wait for it
+        // here (same as `Park::wait_kernel`), otherwise we could finish and the
+        // cqueue could be dropped while `subscribe` is still using both.
+        // Don't yield: we run inside the poller's `poll` now.
+        while self.wait_kernel.load(Ordering::Acquire) {
+            std::thread::yield_now();
+        }
         cancel.clear();
     }
 }
 
 impl EventSource for EventSender<'_> {
     fn subscribe(&mut self, co: CoroutineImpl) {
+        // once the event is pushed the coroutine can be resumed at any time
+        self.wait_kernel.store(true, Ordering::Release);
         self.cqueue.ev_queue.push(Event {
             id: self.id,
             token: self.token,
@@ -141,6 +153,7 @@ impl EventSource for EventSender<'_> {
         if let Some(w) = self.cqueue.to_wake.take() {
             w.unpark();
         }
+        self.wait_kernel.store(false, Ordering::Release);
     }
 
     fn yield_back(&self, _cancel: &'static Cancel) {
@@ -194,6 +207,7 @@ impl Cqueue {
             token,
             extra: 0.into(),
             cqueue: self,
+            wait_kernel: AtomicBool::new(false),
         };
         let h = unsafe { spawn_unsafe(move || f(sender)) };
         let co = h.coroutine().clone();
